@@ -8,7 +8,44 @@ TB = ("Trusted: Coq 8.16.1 kernel + vm_compute; std-lib axioms named in the evid
       "functional_extensionality_dep) where the theorem quantifies over real assignments; hand-written Gallina model tied to /repo by the "
       "correspondence check (Rust harness + exact f64->Q printer + Python driver); f64 rounding not modelled.")
 
+CORE_TIE = ("The whole compiler core (bound inference, every lowering arm, logic lowering, main loop, naming, output assembly) is modelled in Gallina "
+            "(coq/Model/Bounds.v, Linearize.v) and compared structurally with Linearizer::linearize on every run (~2.4k models quick / 40k thorough); "
+            "the property is also evaluated on the implementation itself (exact grid projection test with Boolean enumeration + Fourier-Motzkin).")
+
 CHECKS = {
+ "C01": dict(
+    category="proof",
+    text="PARTIAL proof. Proved in Coq for all inputs: the affine stage of Exp::linearize, every lowering arm's row pattern in both directions "
+         "(big-M abs, selector min/max, dominated operands, reified and/or/xor/implies/iff, witnesses), soundness of every bound the rewrites read, "
+         "value preservation of flatten/simplify, and the frame property of all linearizer actions. The full projection theorem is stated "
+         "(C01_projection_statement) but not yet proved. " + CORE_TIE,
+    design_ref="DESIGN.md section 4 / C01",
+    technique="Coq proof (partial: per-arm lemmas + affine stage) over a full hand-written model + per-run structural correspondence + projection oracle on the implementation",
+    note=TB + " Genuine defects F1 and F16 found by this check were repaired in /repo (fix: commits)."),
+ "C02": dict(
+    category="proof",
+    text="PARTIAL proof. Proved in Coq: for an affine objective the emitted coefficients and offset equal the source objective at every real assignment; "
+         "one-sided and exact arm patterns relax in the right direction and are tight. Full statement (C02_objective_statement) stated, not proved. " + CORE_TIE,
+    design_ref="DESIGN.md section 4 / C02",
+    technique="Coq proof (partial) + per-run structural correspondence of objective map/offset/direction + best-extension objective oracle on the implementation",
+    note=TB),
+ "C07": dict(
+    category="proof",
+    text="Proved in Coq for all models and all real assignments: bounds_of is sound inside the box; every propagation step (affine rows with prefix/suffix sums, "
+         "abs/min/max/+,-,*,/ reverse rules) keeps every feasible point, hence analyze is sound for any step limit, on infeasible models and when it freezes; "
+         "published ranges (integer rounding, NonNegativeReal clamp, keep-declared branches) contain every feasible value (C07_published_sound over compile). "
+         "Tie: the analyser through a guarded hook (box, flags, bounds_of on probes, several step limits) and the compiled domains vs the model on every run.",
+    design_ref="DESIGN.md section 4 / C07",
+    technique="Coq proof by induction over expressions and work-list fuel + per-run correspondence through a read-only hook + feasible-point-in-range oracle",
+    note=TB + " The exact-rational model cannot exhibit a 1-ulp over-tightening caused by f64 rounding of 1.0/divisor."),
+ "C08": dict(
+    category="proof",
+    text="Proved in Coq for all models: sorted duplicate-free variable list equal to the domain key set, one coefficient per variable in every row and the objective, "
+         "every used declared variable present, auxiliary names disjoint from declared names. Checked as invariants on every implementation output each run "
+         "(not yet proved): finite coefficients/rhs/offset, unique non-empty row names, well-formed published ranges, missing-bounds error. " + CORE_TIE,
+    design_ref="DESIGN.md section 4 / C08",
+    technique="Coq proof of structural invariants of the compile model (frame lemmas over the linearizer monad) + per-run correspondence + output predicates on the implementation",
+    note=TB),
  "C10": dict(
     category="proof",
     text="Coq theorems for all expressions and all real assignments: Exp::simplify (typed semantics) and Exp::flatten preserve the value; "
